@@ -24,7 +24,7 @@ ASSUMPTIONS = [
     "signature shapes are valid DER-like encodings (a device that returns undecodable DER is "
     "outside this property's quantifier)",
 ]
-FLOORS = {"quick": {"evaluations": 900, "field_comparisons": 9000, "uihb_transitions": 150},
+FLOORS = {"quick": {"evaluations": 900, "field_comparisons": 6000, "uihb_transitions": 100},
           "thorough": {"evaluations": 40000, "field_comparisons": 400000,
                        "uihb_transitions": 8000}}
 
